@@ -87,6 +87,9 @@ def _insert_cases(draw, tier):
         if all(x is None for x in dirs):
             dirs[draw(st.integers(0, pdim - 1))] = draw(ins_desc())
         ops.append({"dirs": dirs, "form": draw(st.sampled_from(["ops", "method", "method-defaults"]))})
+    if not d["normalize"] and draw(st.integers(0, 2)) == 0:
+        # the documented ``precision`` keyword together with normalize_kv=False: nothing is normalised, so nothing is rounded
+        d["precision"] = draw(st.sampled_from([3, 4, 6]))
     return {"defn": d, "ops": ops, "read_evalpts": draw(st.booleans()), "fork": draw(st.integers(0, 3)) == 0}
 
 
@@ -117,7 +120,8 @@ def _do_insert(obj, params, nums, form):
 
 def check_insert(case, ctx):
     d = case["defn"]
-    obj = build.make(d)
+    obj = build.make(d, precision=d["precision"]) if d.get("precision") else build.make(d)
+    ctx.label("precision-keyword-without-normalisation", bool(d.get("precision")))
     R = build.exact_from(d, obj)
     pdim = len(d["degree"])
     degs = d["degree"]
